@@ -210,6 +210,9 @@ def random_case(rng):
     regs = random_regs(rng)
     content = random_content(rng, regs)
     io = None
+    if rng.random() < 0.015:
+        # in-memory content that names an existing directory or device
+        return {"regs": regs, "content": codec.enc_str(fsup.path_like(rng))}
     if rng.random() < 0.15 and content:
         for _ in range(rng.randrange(1, 4)):  # lone carriage returns (in memory only "\n" ends a line)
             i = rng.randrange(len(content))
